@@ -6,8 +6,8 @@ Everything is written over `List Char` (`Str`) so that the functions are ordinar
 theorems of `Props/C20.lean` can talk about; the driver converts with `String.toList` / `String.ofList`.
 
 The reader and writer are polymorphic in the scalar `α` and take the number parser / printer as ORACLES
-(`parse : Str → Option α`, `print : α → Str`); the contract the theorems need is stated in `Props/C20.lean`
-(`PrintParse`).  The concrete pair used by the driver (`parseNum`, `printG6` at `α = Rat`) follows libstdc++'s
+(`parse : Str → Option α`, `print : α → Str`); the contract the theorems need is the structure
+`PrintParse` of `Proofs/CliText.lean`.  The concrete pair used by the driver (`parseNum`, `printG6` at `α = Rat`) follows libstdc++'s
 `num_get::_M_extract_float` + `strtod` acceptance and `printf("%g")` with the default precision 6.
 -/
 namespace TapkeeVerif.Cli
